@@ -87,8 +87,11 @@ Proof.
         destruct (dr_body f D inp (fst i) (snd i) [] (cl_body cl)) as [[w|k|] dd]; inversion H; reflexivity. }
       subst ds. destruct Hin as [Hin|[]]. inversion Hin; subst m.
       exists (S f). split; [lia|]. unfold T. now rewrite Hsp.
-    + destruct (dr_body f D inp (fst i) (snd i) [] (cl_body cl)) as [rb d] eqn:Eb. inversion H; subst.
-      destruct Hin as [Hin|Hin]; [discriminate|]. apply UpE. eapply IHb; [exact Eb|exact Hr|exact Hin].
+    + destruct (dr_body f D inp (fst i) (snd i) [] (cl_body cl)) as [rb d] eqn:Eb.
+      assert (Hd : ds = RObj (fst i) :: d /\ rb <> OutOfFuel).
+      { destruct rb; inversion H; subst; split; auto; try discriminate. }
+      destruct Hd as (-> & Hrb).
+      destruct Hin as [Hin|Hin]; [discriminate|]. apply UpE. eapply IHb; [exact Eb|exact Hrb|exact Hin].
   - intros me args locs rest r ds H Hr Hin. destruct rest as [|s more]; simpl in H.
     { inversion H; subst. contradiction. }
     destruct s as [e|e h].
@@ -142,7 +145,7 @@ Proof.
     destruct (dr_body f (s_cells st, s_refs st) (input_data st) (fst j) (snd j) [] (cl_body cl)) as [rb db] eqn:Db.
     pose proof (dr_body_fst _ _ _ _ _ _ _ _ _ Db) as Fb. rewrite Fb in Hf.
     destruct rb as [vb|kb|]; inversion Ho; subst; [|discriminate|now elim Hf].
-    unfold none_check. destruct (cl_cached cl); [|discriminate]. destruct vb; [discriminate|]. destruct (cl_allow_none cl); discriminate. }
+    unfold none_check. destruct vb; [discriminate|]. destruct (cl_allow_none cl); discriminate. }
   destruct (dr_own_det _ _ _ _ _ _ _ _ _ A0 ltac:(discriminate) Ho Hr) as (<- & <-).
   unfold dr_own in Ho. unfold defs_of in Ho; simpl in Ho. rewrite El in Ho.
   destruct (dr_body f (s_cells st, s_refs st) (input_data st) (fst j) (snd j) [] (cl_body cl)) as [rb db] eqn:Db.
